@@ -526,6 +526,15 @@ func c18Sched(c *h.Ctx) error {
 			}
 		}
 	}
+	if hm := c.OptInt("hardmax", 0); hm > 0 && len(chosen) > hm {
+		chosen = chosen[:hm] // a seeded random subset (the candidate list was shuffled); edge coverage is reported below
+		covered = map[int]bool{}
+		for _, p := range chosen {
+			for _, ei := range p {
+				covered[ei] = true
+			}
+		}
+	}
 	steps, runs := 0, 0
 	for pi, p := range chosen {
 		if pi%shards != shard {
